@@ -119,7 +119,8 @@ def FnmatchIs (X : Ext) (fnm : String → String → Bool) : Prop :=
   ∀ name pat, X "fnmatch" [.str name, .str pat] = .ok (.bool (fnm name pat))
 
 /-- the constructor `PatternFilter(patterns)` stores the list -/
-def PatternFilterCtor (X : Ext) : Prop := ∀ pats : List String, X "PatternFilter" [strList pats] = .ok (pfVal pats)
+def PatternFilterCtor (X : Ext) : Prop :=
+  ∀ pats : List String, X "PatternFilter(patterns=)" [strList pats] = .ok (pfVal pats)
 
 /-! ### generic loops: search ending the function with an arbitrary result; fold with early exit by an exception -/
 
@@ -248,6 +249,20 @@ theorem groupLoop_eq_foldOpt (split : String → Option (String × String)) (l :
     cases split a with
     | none => rfl
     | some rp => obtain ⟨x, y⟩ := rp; simp [ih]
+
+/-- `r in keys` -/
+theorem memOf_keys (r : String) (acc : Plumb.FileTypeMap) :
+    memOf (.str r) (acc.map fun e => Val.str e.1) = .ok (acc.any fun e => e.1 == r) := by
+  induction acc with
+  | nil => rfl
+  | cons e t ih =>
+    obtain ⟨k, ps⟩ := e
+    simp only [List.map_cons, memOf, Val.eqv, ih, List.any_cons]
+    by_cases h : r = k
+    · subst h; simp
+    · have h1 : (r == k) = false := by simpa using h
+      have h2 : (k == r) = false := by simpa using (Ne.symm h)
+      simp [h1, h2]
 
 /-- `any(_t == r for _t in keys)` -/
 theorem anyM_keys (r : String) (acc : Plumb.FileTypeMap) (f : Val → Res Bool)
@@ -535,7 +550,7 @@ structure TolExt (X : Ext) (pf : String → FloatLit) : Prop where
     | .num u => .ok (.int (u : Int))
     | .exotic => .stuck
   hscaled : ∀ u : Nat, X "ScaledTolerance(base_tolerance=)" [.int (u : Int)] = .ok (tolVal (.scaled u))
-  hctor : ∀ kvs d, X "FieldToleranceMap(default_tol=)" [.dict kvs, d] =
+  hctor : ∀ kvs d, X "FieldToleranceMap(default_tol=,tolerances=)" [d, .dict kvs] =
     .ok (.record [("_field_tolerances", .dict kvs), ("_default", d)])
   hempty : X "FieldToleranceMap" [] = .ok (ftmVal [] none)
 
